@@ -106,8 +106,8 @@ end
 
 /-- the transaction run by `closeTxn` is the one of the state before `resolveLazies` -/
 theorem runOne_resolveLazies (st : St) :
-    (runOne (resolveLazies st) (resolveLazies st).sends (resolveLazies st).posts).2 =
-      (runOne st st.sends st.posts).2 := rfl
+    (runOne (resolveLazies st) (resolveLazies st).sends []).2 =
+      (runOne st st.sends []).2 := rfl
 
 /-! ### concrete programs: the theorems are not vacuous -/
 
